@@ -824,7 +824,7 @@ func (g *Gen) MutateVal(v Val) Val {
 	case "rxv":
 		return g.pickV([]Val{VRx(v.S + "b"), VRx(""), VS(v.S), VUndef})
 	case "binv":
-		return g.pickV([]Val{VBin(v.S + "\x01"), VS(v.S), VUndef, VA(VI(1))})
+		return g.pickV([]Val{VBin(v.S + "\x01"), VS(strings.ToValidUTF8(v.S, "?")), VUndef, VA(VI(1))})
 	case "ts":
 		switch g.n(4) {
 		case 0:
